@@ -1,13 +1,15 @@
-\* intended machine (Dev = {}): every invariant holds, no deadlock; 2 threads x 3 calls, core handle API
+\* intended machine (Dev = {}): every invariant holds, no deadlock.
+\* 2 threads x 2 calls, archive 1 = "A" (read-only) and 2 = "B" (writable) already open, whole API
 CONSTANTS
   Threads = {t1, t2}
   ArchFiles = {"A", "B"}
   Names = {"x", "y"}
   Dev = {}
-  Budget = 3
-  CallFns = {"OpenArchive", "CloseArchive", "OpenFileEx", "ReadFile", "FindFirst", "FindNext", "VerifyArchive"}
+  Budget = 2
+  CallFns = {"OpenArchive", "CloseArchive", "OpenFileEx", "CloseFile", "ReadFile", "SetFilePointer", "GetFileSize", "GetFileInfo", "HasFile", "AddFile", "RemoveFile", "FindFirst", "FindNext", "FindClose", "VerifyArchive", "VerifyFile", "FlushArchive"}
   MaxOpen = 4
   HashCap = 2
+  PreOpen = 2
 INIT MCInit
 NEXT MCNext
 SYMMETRY Symm
